@@ -595,6 +595,18 @@ def check_block_state_cleared(run, rule):
         for tgt, ln in writes(f).items():
             touched.setdefault(tgt, (f, ln))
     resets = writes(clr)
+    # a reset that sits behind a condition (an early `return` for "nothing to do") does not happen in every state
+    envk = Env(clr["body"])
+    uncond = set()
+    for st_, g_, loops_ in ir.guarded_statements(clr["body"], envk):
+        if st_.get("k") in ("IfCond", "LoopHead", "SwitchHead"):
+            continue
+        for tgt_ in writes({"body": st_, "line": clr["line"]}):
+            own = ".".join(tgt_)
+            extra_ = [a_ for a_ in conjuncts(g_) if a_ != ("T",) and own not in repr(a_) and tgt_[1] not in repr(a_)]
+            if not extra_:
+                uncond.add(tgt_)
+    resets = {r_: l_ for r_, l_ in resets.items() if r_ in uncond}
     n = 0
     for tgt, (f, ln) in sorted(touched.items()):
         n += 1
@@ -607,6 +619,8 @@ def check_block_state_cleared(run, rule):
 
 
 def check(run):
+    from . import C08 as _C08
+    _C08.check_tables_append(run, "R01.13")      # an independent writer may repeat a table value; indices must keep resolving
     facts = run.facts
     check_fresh_records(run, "R01.10")
     check_block_state_cleared(run, "R01.11")
